@@ -18,7 +18,7 @@ CHECKS["C07"]=dict(engine="cycle", design="5/C07", note=_cyc_note,
 CHECKS["C08"]=dict(engine="cycle", design="5/C08", note=_cyc_note,
   text="Seeded search over single coordination cycles with every subset of shards unready / failing either GET (503, refused, response lost) / hash differing with push accepted, ineffective, rejected, refused or lost / re-read failing; the complete per-shard request log is checked: no update to a shard that is not in sync by the harness' own definition, config push first and re-read after it, in-sync shards take part, reported targets of reachable unsynced shards are not assigned again.")
 
-_node_note="Trusted: the harness replicates cmd/kvass/sidecar.go's wiring (package main cannot be imported); Prometheus and the scrape targets are stubs; testing/synctest fake clock."
+_node_note="Trusted: the sidecar is the real command body of cmd/kvass/sidecar.go (the build overlay compiles cmd/kvass as a package; its two listeners and the scrape clients' transport are handed to the simulator); Prometheus (HTTP stub behind http.DefaultTransport) and the scrape targets are stubs; testing/synctest fake clock."
 CHECKS["C10"]=dict(engine="node", design="5/C10", note=_node_note,
   text="Model-based seeded search: a real sidecar (TargetsManager, Service, Proxy, Injector, config manager, store file) is driven through drawn operation sequences (updates via the real POST route, scrapes through the real proxy, restarts from the store directory, fake-clock advances) and its real status / runtimeinfo answers are compared with a small reference model of the bookkeeping after every operation (times compared exactly on the fake clock).")
 CHECKS["C12"]=dict(engine="node", design="5/C12", note=_node_note,
@@ -30,7 +30,7 @@ CHECKS["C14"]=dict(engine="node", design="5/C14", note=_node_note,
 CHECKS["C19"]=dict(engine="cycle", design="5/C19", note=_cyc_note,
   text="Differential seeded search: the same two-replica scenario (incl. listing errors, scale errors, unready replicas, different placements of the same targets) is run as [A,B], [B] and [A] with per-replica schedules; everything sent to a replica's shards and manager must be identical with and without the other replica; all cycle oracles are additionally evaluated per replica, also on every cycle of closed-loop two-replica world runs (every 151st run).")
 
-CHECKS["C09"]=dict(engine="node", design="5/C09", note="Trusted: RLIMIT_FSIZE and strace syscall injection behave as documented in this kernel; the update runs without the injector callbacks (only the store is at stake); no power-loss model (kill / partial write / full disk only).",
+CHECKS["C09"]=dict(engine="node", design="5/C09", note="Trusted: RLIMIT_FSIZE and strace syscall injection behave as documented in this kernel; the fault sweeps run without the injector callbacks (only the store is at stake), the clean-restart clause is repeated on the whole `kvass sidecar` command body; no power-loss model (kill / partial write / full disk only).",
   text="Crash-point and write-fault injection below the process, at the syscall boundary, against the real TargetsManager on a real directory: for every byte offset N of small stores (complete sub-sweep) and drawn N of large ones the store write is cut by RLIMIT_FSIZE; the write Load performs at start is cut likewise; the same update runs in a separate OS process with a cut and is SIGKILLed by strace on entry to every syscall touching the store files; after each fault a fresh start must succeed and resume the acknowledged or the interrupted assignment, and a second start must agree. Seeded search over assignment pairs (escaping, sizes, states, idle transitions, old-format store).")
 
 CHECKS["C11"]=dict(engine="node", design="5/C11", note=_node_note+" Both texts are compared as structs loaded by the vendored Prometheus library.",
@@ -42,13 +42,13 @@ CHECKS["C16"]=dict(engine="node", design="5/C16", note="Trusted: the edit catalo
 CHECKS["C18"]=dict(engine="k8s", design="5/C18", note="Trusted: client-go's fake clientset as API-server stub (object tracker semantics); reactors inject errors and the pod list order.",
   text="The real kubernetes ReplicasManager/shardManager run against a fake clientset: complete fault-free sweeps of a small (old,new,templates,flag) grid inside runs plus seeded cases with injected API errors (get/update/delete per ordinal), a concurrent writer, drawn pod list orders, pods without IP, extra pods, rolling-update StatefulSets; oracles on objects left in the stub (replicas, exactly the removed ordinals' claims, never a remaining shard's claim under any error, no write when unchanged) and on the Shard list (ordinal order, address via the URL actually called, readiness).")
 
-_disco_note="Trusted: the harness replicates cmd/kvass/coordinator.go's wiring and owns the SD manager, the forwarder goroutine and the probe transport; scheduling points are the Lock() calls of pkg/discovery and pkg/explore (inserted by the overlay), transport calls and timers; interleavings inside a critical section are not explored."
+_disco_note="Trusted: the harness replicates cmd/kvass/coordinator.go's wiring and owns the SD manager, the forwarder goroutine and the probe transport (C17 additionally runs, every 37th run, the real coordinator command body in the cmdworld engine); scheduling points are the Lock() calls of pkg/discovery and pkg/explore (inserted by the overlay), transport calls and timers; interleavings inside a critical section are not explored."
 CHECKS["C17"]=dict(engine="disco", design="5/C17", note=_disco_note,
   text="Seeded search over interleavings of asynchronous discovery updates, reloads and readers on the real TargetsDiscovery/Explore/ConfigManager chain, with every goroutine parked before each Lock() and released in PRNG order; the recorded history (event sequence stamps) is checked for linearizability against a sequential model with porcupine (Illegal = violation, Unknown = inconclusive), plus snapshot immutability, WaitInit on the fake clock, deleted jobs staying deleted and explorer tracking at quiescence.")
 CHECKS["C20"]=dict(engine="disco", design="5/C20", note=_disco_note,
   text="Seeded search over probe-failure patterns x interleavings of Get calls, probe completions (parked at the transport), fake-clock advances, removals / re-additions of targets (also inside the retry wait and while a probe is in flight), reloads and lock order, against the real explorer with 1-8 workers; probe discipline is observed at the transport (none before Get, one in flight, none after success, no same-instant retry, one queued probe after removal), liveness after a quiet phase, and Get returns the successful probe's counts.")
 
-_world_note="Trusted: Prometheus, the Kubernetes API server + StatefulSet controller, the SD manager and the scrape targets are stubs (Prometheus stub uses the real config.Load and scrape.TargetsFromGroup on the real generated file); cmd wiring is replicated; the budget (140 fault-free cycles) and 'eligible' are the harness' definitions stated in the evidence."
+_world_note="Trusted: Prometheus, the Kubernetes API server + StatefulSet controller, the SD manager and the scrape targets are stubs (Prometheus stub uses the real config.Load and scrape.TargetsFromGroup on the real generated file); the coordinator side of the world engine replicates cmd/kvass/coordinator.go's wiring (its sidecars are the real command bodies); every 7th run is the cmdworld engine instead, where the coordinator too is its real command body (static shard list, real Prometheus discovery manager fed by a simulated SD plug-in) and only end states are judged; the budget (140 fault-free cycles; 80 in cmdworld) and 'eligible' are the harness' definitions stated in the evidence."
 CHECKS["C03"]=dict(engine="world", design="5/C03", note=_world_note,
   text="Closed-loop seeded search on the fake clock: the real coordinator (with real discovery, explorer, config manager and kubernetes shard managers) runs its cycles against real sidecars on real store directories that are scraped by Prometheus stubs; arbitrary initial placements (duplicates, pending and stuck transfers) and workloads (targets added/removed, growth, health flips, config edits) are followed by a quiet phase in which the end-state predicate (every eligible target on exactly one shard in normal state, nothing in_transfer, nothing oversized assigned, nothing undiscovered held) must be reached and stay unchanged; bounded liveness, evidence not proof.")
 CHECKS["C06"]=dict(engine="world", design="5/C06", note=_world_note,
@@ -88,7 +88,7 @@ def main():
         "setup_cmd": "./check build",
         "hooks": {
             "guard": "verif",
-            "enable": "go test -c -tags verif -overlay <scratch>/overlay.json (built by ./check; the overlay rewrites the map ranges of /repo/pkg into verifhook.Keys iterations, inserts verifhook.Yield before every Lock() of pkg/discovery and pkg/explore, and maps in the virtual package tkestack.io/kvass/pkg/verifhook from /verif/sim/hook; /repo itself is not edited: no hook commit exists)",
+            "enable": "go test -c -tags verif -overlay <scratch>/overlay.json (built by ./check; the overlay rewrites the map ranges of /repo/pkg into verifhook.Keys iterations, inserts verifhook.Yield before every Lock() of pkg/discovery, pkg/explore and pkg/sidecar, compiles cmd/kvass as the package pkg/verifcmd with network seams at http.ListenAndServe / NewClientFromConfig and four textual seams in the coordinator command, and maps in the virtual package tkestack.io/kvass/pkg/verifhook from /verif/sim/hook; /repo itself is not edited: no hook commit exists)",
             "baseline_off_cmd": "cd /repo && go test -mod=mod -vet=off -count=1 ./...",
             "source_commits": [],
             "add_only": True,
@@ -98,6 +98,7 @@ def main():
             {"name": "disco", "path": "sim/disco", "serves_properties": [k for k, v in CHECKS.items() if v["engine"] == "disco"], "kind_free_text": "real discovery + explorer + config callbacks under a yield-point scheduler (parks before every Lock()), sim-owned SD producer, forwarder and probe transport"},
             {"name": "world", "path": "sim/world", "serves_properties": [k for k, v in CHECKS.items() if v["engine"] == "world"], "kind_free_text": "closed loop: real coordinator + discovery + explorer + k8s managers + N real sidecars, stubs for Prometheus / API server / targets, discrete-event loop on the synctest fake clock"},
             {"name": "k8s", "path": "sim/k8seng", "serves_properties": [k for k, v in CHECKS.items() if v["engine"] == "k8s"], "kind_free_text": "real kubernetes shard managers against a client-go fake clientset with error reactors"},
+            {"name": "cmdworld", "path": "sim/cmdworld", "serves_properties": ["C03", "C06", "C17"], "kind_free_text": "closed loop of the real command bodies: kvass coordinator (real Prometheus discovery manager over a simulated SD plug-in, static shard list) + one kvass sidecar per shard; end-to-end oracles only; runs as every 7th run of C03/C06 and every 37th of C17"},
             {"name": "node", "path": "sim/node", "serves_properties": [k for k, v in CHECKS.items() if v["engine"] == "node"], "kind_free_text": "one real sidecar under drawn operation and fault sequences against a reference model; real net/http over net.Pipe for C13/C12"},
         ],
         "checks": checks,
